@@ -19,6 +19,8 @@
                                  of kind tkind (5: text of length 5, 6: annotation with offset, length 2,
                                  others: no text); mode 0 JSON, 1 annotate_from_file, 2 CSV
      (12 ..)                     CBOR length headers rewritten: measured only
+     (16 mode n)                 n annotations with inline data whose "@id" is the empty string; mode 0 store,
+                                 1 annotate_from_file; result (0 number of data items)
      (15 cfg request)            the request under Config variant cfg: same prediction
      (13 mode (keys data) (keys data))  one data set defined twice (sub-stores, with_file, merge_json_str,
                                  merge_json_file, two set objects in one merged file); data = ((id key) ..);
@@ -218,10 +220,20 @@ Definition run_inner (x : sx) : sx :=
       let sl := superlinear (sx_N (sx_nth 1 x)) (sx_bool (sx_nth 2 x)) (sx_bool (sx_nth 3 x)) in
       L [triple (L [A (if sl then 5 else 0)]) (L [A 0]) (if sl then 4 else 0); triple (L [A 0]) (L [A 0]) 0]
   | 11%nat =>
-      let parent := match sx_nat (sx_nth 2 x) with 5%nat => Some 5 | 6%nat => Some 2 | _ => None end in
-      let o := ann_offset parent (sx_N (sx_nth 3 x)) (sx_N (sx_nth 4 x)) in
+      let parent := match sx_nat (sx_nth 2 x) with 5%nat => Some 5 | 6%nat => Some 2 | 10%nat => Some 5 | _ => None end in
+      (* an offset value is a small number or a decimal string (up to and beyond 2^64): a string
+         that is no usize makes the document (JSON number / CSV cell) unreadable *)
+      let value (v : sx) : option N := match v with A z => Some (Z.to_N z) | L _ => spec_usize (str_of v) end in
+      let o := match value (sx_nth 3 x), value (sx_nth 4 x) with
+               | Some b, Some e => ann_offset parent b e
+               | _, _ => Err
+               end in
       L [triple (safety_sx o false) (L [A 0]) 0; triple (res_sx o) (res_sx o) 0]
   | 13%nat => run_merge x
+  | 16%nat =>
+      (* n annotations with one inline data item each, every item with "@id": "" (= no identifier)
+         and its own value: n data items *)
+      L [triple (L [A 0]) (L [A 0]) 0; triple (L [A 0; sx_nth 2 x]) (L [A 0; sx_nth 2 x]) 0]
   | 9%nat => run_visit (sx_bool (sx_nth 1 x)) 1
                        (map (fun l => map velem_of (sx_list l)) (sx_list (sx_nth 2 x)))
   | _ => L [triple (L [A 0]) (L [A 0]) 0]
